@@ -398,12 +398,12 @@ Section Arms.
 
   Lemma pt_int : forall start last st txt n rest,
     hd_sat txt is_digit = true -> forallb is_du txt = true -> dec_value 0 txt = Some n ->
-    hd_lat rest -> num_follow rest = true ->
+    hd_lat rest -> num_follow txt rest = true ->
     At st (txt ++ rest) -> Nat.lt (length (txt ++ rest)) F ->
     exists st', PT start last st = (Ok (Some (KAbstractLiteral, VAbsInt txt n, None)), st') /\ At st' rest.
   Proof.
     intros start last st txt n rest Hh Ht Hv HL HF HA Hf.
-    unfold num_follow in HF. apply andb_true_iff in HF. destruct HF as [HF H35]. apply andb_true_iff in HF. destruct HF as [Hr H46].
+    unfold num_follow in HF. apply andb_true_iff in HF. destruct HF as [HF _]. apply andb_true_iff in HF. destruct HF as [HF H35]. apply andb_true_iff in HF. destruct HF as [Hr H46].
     apply negb_true_iff in Hr, H46, H35.
     destruct txt as [|a t1]; [discriminate|]. cbn [hd_sat] in Hh.
     assert (La : a < 256) by (unfold is_digit, in_range in Hh; lia).
